@@ -213,3 +213,142 @@ func ruleLetIsArrow(p *Program, r *Report) {
 	check("compileArrow")
 	_ = strings.TrimSpace
 }
+
+// R08c: folded and unfolded literals are built alike.  A literal whose cells are all constants is folded at
+// compile time by its New…Expr constructor; the same literal with one bound name in it is built at run time by the
+// expression's Eval.  Replacing a let-bound name by its value moves a program from one path to the other, so both
+// must hand the value constructor the same options: where the fold path passes one of its parameters (allowDupKeys)
+// and records it in the expression, Eval must pass that recorded field; where it passes a constant, Eval must pass
+// the same constant.
+func ruleFoldEvalAgreement(p *Program, r *Report) {
+	r.Begin("R08c", "fold ⇔ eval agreement: for every New…Expr constructor of package rel that folds an all-literal expression into a value (NewLiteralExpr of a value-constructor call) and otherwise returns an expression struct, the struct's Eval calls the same value constructor with the same scalar options — the constructor's parameter as recorded in the struct, or the same constant — so that a literal means the same whether or not it was folded", 1)
+	defer r.End()
+	relPkg := p.Pkg("rel")
+	lit := p.Func("rel", "NewLiteralExpr")
+	if relPkg == nil || lit == nil {
+		r.Undecided("anchor", "rel.NewLiteralExpr not found", 0)
+		return
+	}
+	isScalar := func(t types.Type) bool {
+		b, ok := t.Underlying().(*types.Basic)
+		return ok && b.Info()&(types.IsBoolean|types.IsInteger|types.IsString) != 0
+	}
+	n := 0
+	for _, fn := range p.RepoFns {
+		if fn.Pkg != relPkg || fn.Parent() != nil {
+			continue
+		}
+		// fold path: NewLiteralExpr(…, v) with v from a value-constructor call of package rel
+		var foldCalls []*ssa.Call
+		for _, lc := range callsTo(fn, lit) {
+			DependsOn(lc.Call.Args[len(lc.Call.Args)-1], func(x ssa.Value) bool {
+				c, ok := x.(*ssa.Call)
+				if !ok {
+					return false
+				}
+				g := c.Call.StaticCallee()
+				if g != nil && g.Pkg == relPkg && g != lit && (strings.HasPrefix(g.Name(), "New") || strings.HasPrefix(g.Name(), "MustNew")) {
+					foldCalls = append(foldCalls, c)
+				}
+				return false
+			})
+		}
+		if len(foldCalls) == 0 {
+			continue
+		}
+		// the expression struct it otherwise returns, and which parameter went into which field
+		fieldOfParam := map[*ssa.Parameter]string{}
+		var exprT types.Type
+		ForEachInstr(fn, func(ins ssa.Instruction) {
+			st, ok := ins.(*ssa.Store)
+			if !ok {
+				return
+			}
+			fa, ok := st.Addr.(*ssa.FieldAddr)
+			if !ok {
+				return
+			}
+			sto := structOf(fa.X.Type())
+			if sto == nil || !strings.HasSuffix(TypeName(Deref(fa.X.Type())), "Expr") {
+				return
+			}
+			exprT = Deref(fa.X.Type())
+			if prm, ok := st.Val.(*ssa.Parameter); ok {
+				fieldOfParam[prm] = sto.Field(fa.Field).Name()
+			}
+		})
+		if exprT == nil {
+			continue
+		}
+		eval := p.MethodOf(exprT, "Eval")
+		if eval == nil {
+			continue
+		}
+		for _, fc := range foldCalls {
+			ctor := fc.Call.StaticCallee()
+			evalCalls := callsTo(eval, ctor)
+			for _, cl := range Closures(eval) {
+				evalCalls = append(evalCalls, callsTo(cl, ctor)...)
+			}
+			if len(evalCalls) == 0 {
+				r.Info(fmt.Sprintf("ctor@%s#%s", FnName(fn), ctor.Name()), fmt.Sprintf("%s folds with %s; %s builds its value another way: options not compared", FnName(fn), ctor.Name(), FnName(eval)), fc.Pos())
+				continue
+			}
+			r.Fn(FnName(fn))
+			r.Fn(FnName(eval))
+			for i := 0; i < ctor.Signature.Params().Len(); i++ {
+				if !isScalar(ctor.Signature.Params().At(i).Type()) || (ctor.Signature.Variadic() && i == ctor.Signature.Params().Len()-1) {
+					continue
+				}
+				off := 0
+				if ctor.Signature.Recv() != nil {
+					off = 1
+				}
+				fa := fc.Call.Args[i+off]
+				for j, ec := range evalCalls {
+					n++
+					ea := ec.Call.Args[i+off]
+					key := fmt.Sprintf("option@%s#%s.%s~%d", TypeName(exprT), ctor.Name(), ctor.Signature.Params().At(i).Name(), j+1)
+					ok := false
+					want := ""
+					switch a := fa.(type) {
+					case *ssa.Const:
+						want = "the constant " + a.String()
+						if k, isK := ea.(*ssa.Const); isK && k.Value != nil && a.Value != nil && k.Value.ExactString() == a.Value.ExactString() {
+							ok = true
+						}
+					case *ssa.Parameter:
+						f := fieldOfParam[a]
+						want = "the recorded field " + f
+						if f != "" {
+							ok = DependsOn(ea, func(x ssa.Value) bool {
+								switch y := x.(type) {
+								case *ssa.Field:
+									if st := structOf(y.X.Type()); st != nil {
+										return st.Field(y.Field).Name() == f
+									}
+								case *ssa.FieldAddr:
+									if st := structOf(y.X.Type()); st != nil {
+										return st.Field(y.Field).Name() == f
+									}
+								}
+								return false
+							})
+							if _, isConst := ea.(*ssa.Const); isConst {
+								ok = false
+							}
+						}
+					default:
+						continue
+					}
+					r.Check(ok, key, "Eval passes "+want, fmt.Sprintf("%s folds an all-literal expression with %s(%s = %s) but %s builds the same expression at run time with a different value for that option: the literal changes meaning (or starts failing) as soon as one of its cells is a bound name instead of a constant", FnName(fn), ctor.Name(), ctor.Signature.Params().At(i).Name(), want, FnName(eval)), ec.Pos())
+				}
+			}
+		}
+	}
+	if n == 0 {
+		r.Undecided("sites", "no folding constructor with a scalar option found (NewDictExpr / allowDupKeys confirmed by hand)", 0)
+	}
+}
+
+func init() { register("C08", Rule{"R08c", ruleFoldEvalAgreement}) }
